@@ -481,3 +481,29 @@ Proof.
   pose proof (s_started s a HS) as H1. pose proof (s_returned s a HS) as H2. unfold nret in H2.
   rewrite (cnt_all_true is_ret (calls s)) in H2; [lia|]. intros i k Hk. unfold is_ret. rewrite (Hall i k Hk). reflexivity.
 Qed.
+
+(* ---------- the canonical run of a fault script is a run of the transition system ---------- *)
+Lemma run_snoc : forall c ls s s1 l s2, run c s ls = Some s1 -> step c s1 l = Some s2 -> run c s (ls ++ [l]) = Some s2.
+Proof.
+  induction ls as [|x r IH]; intros s s1 l s2 H1 H2; cbn [run app] in *.
+  - inversion H1; subst. rewrite H2. reflexivity.
+  - destruct (step c s x) as [s'|]; [|discriminate]. eapply IH; eauto.
+Qed.
+
+Lemma crun_is_run : forall fuel sc s e acc s' ls,
+  run (sc_cfg sc) init (rev acc) = Some s -> crun fuel sc s e acc = (s', ls, true) -> run (sc_cfg sc) init (rev ls) = Some s'.
+Proof.
+  induction fuel as [|f IH]; intros sc s e acc s' ls Hr H; cbn [crun] in H; [discriminate|].
+  destruct (finished sc s e).
+  - inversion H; subst. exact Hr.
+  - destruct (sched sc s e) as [l e']. destruct (step (sc_cfg sc) s l) as [s1|] eqn:E; [|discriminate].
+    eapply IH; [|exact H]. cbn [rev]. eapply run_snoc; eauto.
+Qed.
+
+Theorem canonical_is_run : forall sc s ls, canonical sc = (s, ls, true) ->
+  run (sc_cfg sc) init (rev ls) = Some s /\ reach (sc_cfg sc) s.
+Proof.
+  intros sc s ls H. unfold canonical in H.
+  assert (Hr : run (sc_cfg sc) init (rev ls) = Some s) by (eapply crun_is_run; [|exact H]; reflexivity).
+  split; [exact Hr|]. eapply run_reach; [apply reach_init|exact Hr].
+Qed.
